@@ -10,6 +10,7 @@ package kcp
 
 import (
 	"fmt"
+	"math"
 	"os"
 	"sync"
 	"sync/atomic"
@@ -24,6 +25,23 @@ type schedTask struct {
 	early    atomic.Bool
 	ranAt    atomic.Int64 // ns since round start
 	putAt    int64        // ns since round start when Put returned
+}
+
+// c17Far: a far-future deadline of one of several magnitudes, up to the largest
+// instants a time.Time can be asked to hold.
+func c17Far(r *vrng) time.Time {
+	now := time.Now()
+	switch r.intn(5) {
+	case 0:
+		return now.AddDate(100, 0, 0)
+	case 1:
+		return now.Add(math.MaxInt64) // ~292 years: beyond what UnixNano can express
+	case 2:
+		return time.Date(9999, 12, 31, 23, 59, 59, 0, time.UTC)
+	case 3:
+		return time.Unix(1<<40, 0)
+	}
+	return now.Add(time.Hour + time.Duration(r.intn(1000))*time.Second)
 }
 
 func TestVerifC17(t *testing.T) {
@@ -92,7 +110,7 @@ func TestVerifC17(t *testing.T) {
 						tk.deadline = base.Add(time.Duration(K-i) * 100 * time.Microsecond)
 					case "near-far":
 						if i%2 == 0 {
-							tk.deadline = time.Now().Add(time.Hour + time.Duration(grng.intn(1000))*time.Second)
+							tk.deadline = c17Far(grng)
 							tk.far = true
 						} else {
 							tk.deadline = time.Now().Add(time.Duration(grng.intn(20000)) * time.Microsecond)
@@ -102,7 +120,7 @@ func TestVerifC17(t *testing.T) {
 						// after earlier ones have fired (the worker's heap is drained
 						// only partly: the far task stays)
 						if i%16 == 0 {
-							tk.deadline = time.Now().Add(time.Hour + time.Duration(grng.intn(1000))*time.Second)
+							tk.deadline = c17Far(grng)
 							tk.far = true
 						} else {
 							if i%8 == 1 {
@@ -250,7 +268,211 @@ func TestVerifC17(t *testing.T) {
 		rec.nontrivial(hashAny(desc))
 		rec.sample("round", 3, desc)
 	}
+	c17Busy(rec, &caseIdx)
 	for i := 6; i <= 7; i++ {
 		rec.count(fmt.Sprintf("yield_point_%d_reached", i), yieldCounts[i].Load())
+	}
+}
+
+// c17Busy: long-running tasks. A task may have to wait for the worker that holds
+// it, but once that worker is free (and the deadline has passed) it runs
+// promptly: the time an earlier task took is not added a second time.
+//
+//	bound(X) = max(X.deadline, X.put, latest end of a long task begun before X ran)
+//
+// X must start within c17Slack of bound(X); a round in which the machine itself
+// was observed to stall (sleep overshoot) is inconclusive instead.
+const c17Slack = 150 * time.Millisecond
+
+type busyTask struct {
+	schedTask
+	long         time.Duration
+	startNs, end atomic.Int64
+	name         string
+}
+
+func c17Busy(rec *vrec, caseIdx *int64) {
+	env := rec.env
+	rounds := env.pickN(24, 240)
+	for r := 0; r < rounds; r++ {
+		idx := *caseIdx
+		*caseIdx++
+		if !env.mine(idx) {
+			continue
+		}
+		rng := rec.seed(uint64(idx), 172)
+		par := pick(rng, []int{1, 1, 2})
+		busy := time.Duration(pick(rng, []int{400, 500, 700})) * time.Millisecond
+		scripted := r%2 == 0
+		desc := map[string]any{"case": idx, "part": "busy-worker", "workers": par, "busy_ms": busy.Milliseconds(), "scripted": scripted, "GODEBUG": os.Getenv("GODEBUG")}
+		rec.beginCase(desc)
+		yieldMode.Store(0)
+		ts := NewTimedSched(par)
+		start := time.Now()
+		// stall monitor: how much does a 1 ms sleep overshoot on this machine now?
+		var maxOver atomic.Int64
+		stopMon := make(chan struct{})
+		var monWg sync.WaitGroup
+		monWg.Add(1)
+		go func() {
+			defer monWg.Done()
+			for {
+				select {
+				case <-stopMon:
+					return
+				default:
+				}
+				t0 := time.Now()
+				time.Sleep(time.Millisecond)
+				if o := int64(time.Since(t0) - time.Millisecond); o > maxOver.Load() {
+					maxOver.Store(o)
+				}
+			}
+		}()
+		var all []*busyTask
+		var longStarted = make(chan struct{}, 16)
+		put := func(name string, deadline time.Time, long time.Duration) *busyTask {
+			tk := &busyTask{long: long, name: name}
+			tk.deadline = deadline
+			all = append(all, tk)
+			ts.Put(func() {
+				now := time.Now()
+				if now.Before(tk.deadline) {
+					tk.early.Store(true)
+				}
+				tk.ranAt.CompareAndSwap(0, now.Sub(start).Nanoseconds()+1)
+				tk.count.Add(1)
+				if tk.long > 0 {
+					select {
+					case longStarted <- struct{}{}:
+					default:
+					}
+					time.Sleep(tk.long)
+					tk.end.Store(time.Since(start).Nanoseconds())
+				}
+			}, deadline)
+			tk.putAt = time.Since(start).Nanoseconds()
+			return tk
+		}
+		if scripted {
+			// a near task waits in the heap; an overdue long task is taken from the
+			// hand-off channel and runs; the near task's timer fires meanwhile; more
+			// tasks are submitted while the worker is busy
+			for w := 0; w < par; w++ {
+				put("heap-during-busy", time.Now().Add(time.Duration(60+rng.intn(100))*time.Millisecond), 0)
+			}
+			time.Sleep(20 * time.Millisecond)
+			for w := 0; w < par; w++ {
+				put("long-overdue", time.Now().Add(-time.Millisecond), busy)
+			}
+			for w := 0; w < par; w++ {
+				select {
+				case <-longStarted:
+				case <-time.After(5 * time.Second):
+				}
+			}
+			put("submitted-while-busy-due-after", time.Now().Add(busy+time.Duration(20+rng.intn(60))*time.Millisecond), 0)
+			put("submitted-while-busy-due-during", time.Now().Add(busy/2), 0)
+			put("submitted-while-busy-overdue", time.Now().Add(-time.Millisecond), 0)
+			for i := 0; i < rng.between(0, 4); i++ {
+				put("submitted-while-busy-random", time.Now().Add(time.Duration(rng.intn(int(2*busy)))), 0)
+			}
+			// and the sibling path: long task and its successors all in the heap
+			time.Sleep(2*busy + 300*time.Millisecond)
+			t0 := time.Now().Add(50 * time.Millisecond)
+			for w := 0; w < par; w++ {
+				put("long-from-heap", t0, busy)
+			}
+			for i := 0; i < 3+rng.intn(4); i++ {
+				put("heap-due-during-busy", t0.Add(time.Duration(1+rng.intn(int(busy-time.Millisecond)))), 0)
+			}
+			put("heap-due-after-busy", t0.Add(busy+40*time.Millisecond), 0)
+		} else {
+			steps := rng.between(15, 40)
+			nLong := 0
+			for i := 0; i < steps; i++ {
+				switch x := rng.intn(10); {
+				case x == 0 && nLong < 3:
+					nLong++
+					put("long-overdue", time.Now().Add(-time.Duration(rng.intn(3))*time.Millisecond), busy)
+				case x == 1 && nLong < 3:
+					nLong++
+					put("long-from-heap", time.Now().Add(time.Duration(rng.intn(80))*time.Millisecond), busy)
+				case x < 4:
+					time.Sleep(time.Duration(rng.intn(120)) * time.Millisecond)
+				default:
+					put("near", time.Now().Add(time.Duration(rng.intn(int(busy*3/2)))-5*time.Millisecond), 0)
+				}
+			}
+		}
+		// wait for everything: all deadlines are within a few busy periods
+		var last time.Time
+		for _, tk := range all {
+			if tk.deadline.After(last) {
+				last = tk.deadline
+			}
+		}
+		giveUp := last.Add(time.Duration(len(all))*busy/4 + 4*busy + 10*time.Second)
+		pending := func() int {
+			n := 0
+			for _, tk := range all {
+				if tk.count.Load() == 0 || (tk.long > 0 && tk.end.Load() == 0) {
+					n++
+				}
+			}
+			return n
+		}
+		for pending() > 0 && time.Now().Before(giveUp) {
+			time.Sleep(5 * time.Millisecond)
+		}
+		time.Sleep(20 * time.Millisecond)
+		close(stopMon)
+		monWg.Wait()
+		ts.Close()
+		stalled := time.Duration(maxOver.Load()) > 25*time.Millisecond
+		if n := pending(); n > 0 {
+			if stalled {
+				rec.inconcl(fmt.Sprintf("busy round %d: %d tasks pending, machine stalled (1 ms sleep overshot by %v)", idx, n, time.Duration(maxOver.Load())))
+			} else {
+				rec.violationf(desc, "C17 task never ran", "%d of %d tasks of a round with long-running tasks had not run", n, len(all))
+			}
+			continue
+		}
+		var worst time.Duration
+		for _, tk := range all {
+			if c := tk.count.Load(); c > 1 {
+				rec.violationf(desc, "C17 task ran more than once", "%s: count=%d", tk.name, c)
+			}
+			if tk.early.Load() {
+				rec.violationf(desc, "C17 task ran before its deadline", "%s: deadline=+%v ran at +%v", tk.name, tk.deadline.Sub(start), time.Duration(tk.ranAt.Load()))
+			}
+			ran := tk.ranAt.Load() - 1
+			bound := tk.deadline.Sub(start).Nanoseconds()
+			if tk.putAt > bound {
+				bound = tk.putAt
+			}
+			for _, l := range all {
+				if l.long > 0 && l != tk && l.ranAt.Load()-1 <= ran && l.end.Load() > bound {
+					bound = l.end.Load()
+				}
+			}
+			late := time.Duration(ran - bound)
+			if late > worst {
+				worst = late
+			}
+			rec.count("busy_tasks_judged:"+tk.name, 1)
+			if late > c17Slack {
+				if stalled {
+					rec.inconcl(fmt.Sprintf("busy round %d: lateness %v but the machine stalled (1 ms sleep overshot by %v)", idx, late, time.Duration(maxOver.Load())))
+				} else {
+					rec.violationf(desc, "C17 task ran late although its deadline had passed and its worker was free", "%s: deadline +%v, submitted at +%v, ran at +%v: %v after the latest of deadline, submission and the end of every long task begun before it (long tasks take %v; 1 ms sleeps overshot by at most %v)", tk.name, tk.deadline.Sub(start), time.Duration(tk.putAt), time.Duration(ran), late, busy, time.Duration(maxOver.Load()))
+				}
+			}
+		}
+		rec.eval(int64(len(all)))
+		rec.count("busy_rounds", 1)
+		rec.maxCount("busy_max_lateness_beyond_bound_us", int64(worst/time.Microsecond))
+		rec.nontrivial(hashAny(desc))
+		rec.sample("busy-worker", 2, desc)
 	}
 }
